@@ -33,6 +33,95 @@ static void pts(const char *key, int id, const PolyLine &pl, bool tr) {
     printf("\n");
 }
 
+static void reexecFrom(long k, int argc, char **argv) {
+    std::vector<char *> nargv;
+    for (int i = 0; i < argc; ++i) {
+        if (std::string(argv[i]) == "--from") { ++i; continue; }
+        nargv.push_back(argv[i]);
+    }
+    std::string fromS = std::to_string(k);
+    nargv.push_back((char *) "--from"); nargv.push_back((char *) fromS.c_str()); nargv.push_back(nullptr);
+    execv("/proc/self/exe", nargv.data());
+    _exit(3);
+}
+
+// Second family ("cpmid"): one obstacle, m = 2..3 connectors whose routes are S/Z-shaped: a first leg
+// that runs THROUGH a checkpoint lying strictly inside it (not at a bend), a middle segment in the
+// channel beside the obstacle, a last leg to the target. All middle segments share that channel and
+// have to be nudged apart; they may move towards the checkpoints only as far as the nearest checkpoint
+// coordinate (buildOrthogonalNudgingSegments limits a middle segment by the checkpoints on the two
+// adjoining segments). `side` = +1: the checkpoints lie at a HIGHER coordinate than the channel,
+// -1: mirrored (lower coordinate); optionally transposed. The channel [edge+buffer, checkpoint] is
+// wide enough, (m+1)*d <= its width, by construction.
+static bool cpMidCase(const vh::Args &a, long k, int argc, char **argv) {
+    vh::Rng r = vh::caseRng(a.seed, k, 1);
+    static const double ds[] = {1, 4, 8, 10};
+    double d = ds[r.range(0, 3)];
+    int m = (int) r.range(2, 3);
+    unsigned opts = (unsigned) (2 * r.range(0, 15));           // nudgeOrthogonalSegmentsConnectedToShapes off
+    if (r.coin()) opts = 4 | 8;                                 // the library defaults
+    double buf = r.coin() ? 10.0 : 4.0;
+    double side = r.coin() ? 1.0 : -1.0;
+    bool transpose = r.coin();
+    double hw = (double) r.range(20, 40);                       // obstacle [-hw,hw] x [20, 20+ht]
+    double ht = (double) r.range(40, 80);
+    double width = (m + 1) * d + (double) r.range(0, 20);       // channel width between obstacle buffer and checkpoint
+    double cx = hw + buf + width;                               // checkpoint abscissa (before mirroring)
+    double X = cx + (double) r.range(40, 160);                  // source abscissa
+    double seg = r.coin() ? 50.0 : 10.0;                        // segmentPenalty
+    auto P = [&](double x, double y) { return transpose ? Point(y, side * x) : Point(side * x, y); };
+    vh::beginCase(k, side > 0 ? "cpmid" : "cpmid-mirror");
+    printf("cfg %s %s %d %d %s %u %s %d cpmid\n", hx(d).c_str(), hx(width).c_str(), m, 1, hx(buf).c_str(), opts, hx(0.0).c_str(), (int) transpose);
+    Router *router = nullptr;
+    try {
+        router = new Router(OrthogonalRouting);
+        router->setTransactionUse(true);
+        router->setRoutingParameter(segmentPenalty, seg);
+        router->setRoutingParameter(idealNudgingDistance, d);
+        router->setRoutingParameter(shapeBufferDistance, buf);
+        router->setRoutingOption(nudgeOrthogonalSegmentsConnectedToShapes, false);
+        router->setRoutingOption(nudgeOrthogonalTouchingColinearSegments, (opts & 2) != 0);
+        router->setRoutingOption(performUnifyingNudgingPreprocessingStep, (opts & 4) != 0);
+        router->setRoutingOption(nudgeSharedPathsWithCommonEndPoint, (opts & 8) != 0);
+        router->setRoutingOption(penaliseOrthogonalSharedPathsAtConnEnds, (opts & 16) != 0);
+        Point o1 = P(-hw, 20), o2 = P(hw, 20 + ht);
+        Rectangle rect(Point(std::min(o1.x, o2.x), std::min(o1.y, o2.y)), Point(std::max(o1.x, o2.x), std::max(o1.y, o2.y)));
+        printf("obstacle %s %s %s %s\n", hx(std::min(o1.x, o2.x)).c_str(), hx(std::min(o1.y, o2.y)).c_str(), hx(std::max(o1.x, o2.x)).c_str(), hx(std::max(o1.y, o2.y)).c_str());
+        new ShapeRef(router, rect, 1);
+        std::vector<ConnRef *> conns;
+        int noCp = r.coin(1, 4) ? (int) r.range(0, m - 1) : -1;      // sometimes one connector without checkpoint
+        for (int i = 0; i < m; ++i) {
+            double ys = i ? -20.0 * i : 0.0, yt = 20 + ht + 20 + 20.0 * i;
+            Point s = P(X, ys), t = P(0, yt);
+            printf("conn %d %s %s %s %s\n", i, hx(s.x).c_str(), hx(s.y).c_str(), hx(t.x).c_str(), hx(t.y).c_str());
+            ConnRef *c = new ConnRef(router, ConnEnd(s), ConnEnd(t), (unsigned) (100 + i));
+            c->setRoutingType(ConnType_Orthogonal);
+            if (i != noCp) {
+                Point cp = P(cx, ys);
+                printf("cps %d 1 %s %s\n", i, hx(cp.x).c_str(), hx(cp.y).c_str());
+                std::vector<Checkpoint> v; v.push_back(Checkpoint(cp));
+                c->setRoutingCheckpoints(v);
+            }
+            conns.push_back(c);
+        }
+        fflush(stdout);
+        router->processTransaction();
+        for (int i = 0; i < m; ++i) {
+            pts("route", i, conns[i]->route(), transpose);
+            pts("disp", i, conns[i]->displayRoute(), transpose);
+        }
+        printf("overlap %d\n", (int) router->existsOrthogonalSegmentOverlap());
+        vh::endCase();
+        delete router;
+    } catch (vpsc::CriticalFailure &f) {
+        printf("assert %s\n", oneLine(f.what()).c_str());
+        vh::endCase();
+        if (a.only >= 0) _exit(0);
+        reexecFrom(k + 1, argc, argv);
+    }
+    return true;
+}
+
 int main(int argc, char **argv) {
     vh::Args a = vh::parseArgs(argc, argv);
     bool thorough = (a.tier == "thorough");
@@ -40,8 +129,13 @@ int main(int argc, char **argv) {
     if (a.n >= 0) ncases = a.n;
     long from = 0;
     for (int i = 1; i + 1 < argc; ++i) if (std::string(argv[i]) == "--from") from = atol(argv[i + 1]);
-    for (long k = from; k < ncases; ++k) {
+    long nmid = (thorough ? 8000 : 1500) * a.scale;        // second family, indices ncases .. ncases+nmid-1
+    for (long k = from; k < ncases + nmid; ++k) {
         if (!a.want(k)) continue;
+        if (k >= ncases) {
+            if (!cpMidCase(a, k, argc, argv)) return 0;
+            continue;
+        }
         vh::Rng r = vh::caseRng(a.seed, k);
         // ---- parameters
         static const double ds[] = {1, 4, 10};
